@@ -1596,13 +1596,20 @@ def survey(fn):
         path = os.environ.get("VF_RK_SURVEY")
         if not path:
             return await fn(case, rec)
+        import time
+
         from vf.core import Violation
 
+        t0 = time.time()
         try:
             return await fn(case, rec)
         except Violation as v:
             with open(path, "a") as fh:
                 fh.write(json.dumps({"kind": v.kind, "case": case, "msg": v.message[:600]}) + "\n")
             rec.nontrivial(True)
+        finally:
+            if time.time() - t0 > 2.0:  # cost survey only (never used by an oracle)
+                with open(path + ".slow", "a") as fh:
+                    fh.write(json.dumps({"s": round(time.time() - t0, 1), "events": len(LAST_RUN.events) if LAST_RUN else 0, "rid": LAST_RUN.rid if LAST_RUN else 0, "case": case}) + "\n")
 
     return wrapper
